@@ -28,6 +28,16 @@ INPUTSETS = [
 ]
 
 
+# an input whose eight v1 programs under KEYSETS[0][0] contain no CFROUND at all (3e-4 of inputs; found by a design-time search on the unchanged
+# tree): whatever an implementation derives from "the programs of the previous hash changed the rounding mode" is false after this input
+NC_ISET = 99
+NC_INPUTS = (b'no-cfround input #378', b'Lorem ipsum dolor sit amet')
+
+
+def inputset(i):
+    return NC_INPUTS if i == NC_ISET else INPUTSETS[i]
+
+
 def hx(b):
     return b.hex() if b else '-'
 
@@ -35,7 +45,7 @@ def hx(b):
 def write_data(path, ks, iset):
     with open(path, 'w') as f:
         f.write('key K1 %s\nkey K2 %s\n' % (hx(KEYSETS[ks][0]), hx(KEYSETS[ks][1])))
-        f.write('input I1 %s\ninput I2 %s\n' % (hx(INPUTSETS[iset][0]), hx(INPUTSETS[iset][1])))
+        f.write('input I1 %s\ninput I2 %s\n' % (hx(inputset(iset)[0]), hx(inputset(iset)[1])))
 
 
 def tlc_scenarios(cfg, num, depth, seed, module='RxApiSim', timeout=600):
